@@ -141,6 +141,14 @@ func Encode(hrp string, data []byte) (string, error) {
 
 // Decode decodes a Bech32 string. If the string is uppercase, the HRP will be uppercase.
 func Decode(s string) (hrp string, data []byte, err error) {
+	// Only printable ASCII is valid. This has to be checked before folding the
+	// case: the case mapping of some non-ASCII runes is an ASCII letter (and
+	// has a different length), which would desynchronize the offsets below.
+	for p := 0; p < len(s); p++ {
+		if s[p] < 33 || s[p] > 126 {
+			return "", nil, fmt.Errorf("invalid character: s[%d]=%d", p, s[p])
+		}
+	}
 	if strings.ToLower(s) != s && strings.ToUpper(s) != s {
 		return "", nil, fmt.Errorf("mixed case")
 	}
